@@ -284,6 +284,10 @@ fn run_history<G: Glob + 'static>(case: &Case) -> CaseResult {
                             panics += 1;
                             classes.push("panic-append-unattached");
                         }
+                        // the docs only say append()/sink() "may panic" with nothing attached: a
+                        // silent discard is as acceptable, as long as the entry goes nowhere (the
+                        // collectors are compared right below)
+                        (None, Ok(true), 1) | (None, Ok(true), 2) => classes.push("silent-discard-unattached"),
                         (d, res, k) => vfail!(
                             "global:wrong-append-outcome",
                             "op {i}: append kind {k} on thread {t} (runtime {r:?}) with model destination {d:?} returned {res:?}"
@@ -558,11 +562,19 @@ pub fn check_inflight(case: &InflightCase) -> CaseResult {
             *g = true;
             go.1.notify_all();
         }
-        let ok = a.join().unwrap_or(false);
+        let ok = a.join();
         let _ = d.join();
         (ok, detach_done_while_append_in_flight)
     });
     let (ok, early) = res;
+    let ok = match ok {
+        Ok(v) => v,
+        Err(_) => vfail!(
+            "global:append-panicked-during-detach",
+            "the append that was in flight while the attach handle was dropped panicked: {:?}",
+            take_last_panic()
+        ),
+    };
     let fl = flushed.lock().unwrap().clone();
     let lt = late.lock().unwrap().clone();
     let mut classes: Classes = vec![];
